@@ -2,6 +2,7 @@
 use explorer::{Args, Report};
 
 mod c34;
+mod c35;
 mod c36;
 mod c37;
 mod c38;
@@ -11,7 +12,9 @@ mod scratch;
 
 fn main() {
     let args = Args::parse();
-    explorer::quiet_panics();
+    if std::env::var_os("VH_LOUD_PANICS").is_none() {
+        explorer::quiet_panics();
+    }
     // Seam S3 must work for every check of this binary (C36/C38 drive it, C35 depends on it for
     // deterministic secret timestamps); a broken seam is a machinery error, never a verdict.
     if let Err(e) = clock::self_test() {
@@ -20,6 +23,7 @@ fn main() {
     }
     let code = match args.property.as_str() {
         "C34" => c34::run(Report::new(&args, "model_checking")),
+        "C35" => c35::run(Report::new(&args, "model_checking")),
         "C36" => c36::run(Report::new(&args, "model_checking")),
         "C37" => c37::run(Report::new(&args, "model_checking")),
         "C38" => c38::run(Report::new(&args, "model_checking")),
